@@ -85,7 +85,9 @@ func (s *resultStore) Add(results ...ocr2keepers.CheckResult) {
 
 	for _, r := range results {
 		v, ok := s.data[r.WorkID]
-		if !ok {
+		if !ok || time.Since(v.addedAt) > storeTTL {
+			// nothing stored, or only an expired entry that the garbage
+			// collector has not removed yet (no view returns it any more)
 			s.data[r.WorkID] = result{data: r, addedAt: time.Now()}
 			s.lggr.Printf("Result added for upkeep id '%s' and trigger '%+v'", r.UpkeepID.String(), r.Trigger)
 		} else if v.data.Trigger.BlockNumber < r.Trigger.BlockNumber {
